@@ -121,6 +121,8 @@ package tacquito
 //@   ensures[C19] full.AuthenStart(data) ==> ((typeOf(err) == *BadSecretErr) == overrun.AuthenStart(data))
 //@   taints[C18] data 3
 //@   ensures[C18] (taintkind(data, 1) && err == nil) ==> tainted(a.Data, 1)
+//@   ensures[C18] taintkind(data, 1) ==> maytaint(err, 1)
+//@   ensures[C18] taintkind(data, 2) ==> maytaint(err, 2)
 //@   ensures[C18] (taintkind(data, 2) && err == nil) ==> tainted(a.User, 2) && tainted(a.Port, 2) && tainted(a.RemAddr, 2) && tainted(a.Data, 2)
 //@   also
 //@   ghost f AuthenStart
@@ -178,6 +180,8 @@ package tacquito
 //@   ensures[C19] full.AuthenContinue(data) ==> ((typeOf(err) == *BadSecretErr) == overrun.AuthenContinue(data))
 //@   taints[C18] data 3
 //@   ensures[C18] (taintkind(data, 2) && err == nil) ==> tainted(a.UserMessage, 2)
+//@   ensures[C18] taintkind(data, 1) ==> maytaint(err, 1)
+//@   ensures[C18] taintkind(data, 2) ==> maytaint(err, 2)
 //@   ensures[C18] (taintkind(data, 1) && err == nil) ==> tainted(a.UserMessage, 1) && tainted(a.Data, 1)
 //@   also
 //@   ghost f AuthenContinue
@@ -628,12 +632,12 @@ package tacquito
 //@   requires s != nil && wfSessions(s)
 //@   modifies s.known, ghost.gauge
 //@   ensures wfSessions(s)
-//@   ensures[C08] err == nil ==> h.SeqNo mod 2 == 1
-//@   ensures[C08] (err == nil && old(has(s.known, h.SessionID))) ==> h.SeqNo > old(s.known[h.SessionID].header.SeqNo)
-//@   ensures[C08,C09] (err == nil && old(has(s.known, h.SessionID))) ==> res == old(s.known[h.SessionID].Handler)
-//@   ensures[C08,C09] (err == nil && !old(has(s.known, h.SessionID))) ==> res == nil
-//@   ensures[C08,C09] sameExcept(s.known, h.SessionID)
-//@   ensures[C08,C09] err == nil ==> has(s.known, h.SessionID) == old(has(s.known, h.SessionID)) && len(s.known) == old(len(s.known))
+//@   ensures[C07,C08] err == nil ==> h.SeqNo mod 2 == 1
+//@   ensures[C07,C08] (err == nil && old(has(s.known, h.SessionID))) ==> h.SeqNo > old(s.known[h.SessionID].header.SeqNo)
+//@   ensures[C07,C08,C09] (err == nil && old(has(s.known, h.SessionID))) ==> res == old(s.known[h.SessionID].Handler)
+//@   ensures[C07,C08,C09] (err == nil && !old(has(s.known, h.SessionID))) ==> res == nil
+//@   ensures[C07,C08,C09] sameExcept(s.known, h.SessionID)
+//@   ensures[C07,C08,C09] err == nil ==> has(s.known, h.SessionID) == old(has(s.known, h.SessionID)) && len(s.known) == old(len(s.known))
 //@   ensures[C20] ghost.gauge[sessionsActive] - len(s.known) == old(ghost.gauge[sessionsActive] - len(s.known))
 //@   ensures[C20] ghost.gauge == upd(old(ghost.gauge), sessionsActive, ghost.gauge[sessionsActive])
 
@@ -641,8 +645,8 @@ package tacquito
 //@   requires s != nil && wfSessions(s)
 //@   modifies s.known, ghost.gauge
 //@   ensures wfSessions(s)
-//@   ensures[C08,C09] has(s.known, h.SessionID) && s.known[h.SessionID].header == h && s.known[h.SessionID].Handler == n
-//@   ensures[C08,C09] sameExcept(s.known, h.SessionID)
+//@   ensures[C07,C08,C09] has(s.known, h.SessionID) && s.known[h.SessionID].header == h && s.known[h.SessionID].Handler == n
+//@   ensures[C07,C08,C09] sameExcept(s.known, h.SessionID)
 //@   ensures[C20] !old(has(s.known, h.SessionID)) ==> ghost.gauge[sessionsActive] - len(s.known) == old(ghost.gauge[sessionsActive] - len(s.known))
 //@   ensures[C20] ghost.gauge == upd(old(ghost.gauge), sessionsActive, ghost.gauge[sessionsActive])
 
@@ -650,16 +654,16 @@ package tacquito
 //@   requires s != nil && wfSessions(s)
 //@   modifies s.known, ghost.gauge
 //@   ensures wfSessions(s)
-//@   ensures[C08,C09] old(has(s.known, h.SessionID)) ==> has(s.known, h.SessionID) && s.known[h.SessionID].header == h && s.known[h.SessionID].Handler == n
-//@   ensures[C08,C09] sameExcept(s.known, h.SessionID) && len(s.known) == old(len(s.known))
+//@   ensures[C07,C08,C09] old(has(s.known, h.SessionID)) ==> has(s.known, h.SessionID) && s.known[h.SessionID].header == h && s.known[h.SessionID].Handler == n
+//@   ensures[C07,C08,C09] sameExcept(s.known, h.SessionID) && len(s.known) == old(len(s.known))
 //@   ensures[C20] ghost.gauge == old(ghost.gauge)
 
 //@ func (s *sessions) delete(session SessionID)
 //@   requires s != nil && wfSessions(s)
 //@   modifies s.known, ghost.gauge
 //@   ensures wfSessions(s)
-//@   ensures[C08,C09] !has(s.known, session)
-//@   ensures[C08,C09] sameExcept(s.known, session)
+//@   ensures[C07,C08,C09] !has(s.known, session)
+//@   ensures[C07,C08,C09] sameExcept(s.known, session)
 //@   ensures[C20] ghost.gauge[sessionsActive] - len(s.known) == old(ghost.gauge[sessionsActive] - len(s.known))
 //@   ensures[C20] ghost.gauge == upd(old(ghost.gauge), sessionsActive, ghost.gauge[sessionsActive])
 
@@ -697,7 +701,7 @@ package tacquito
 //@   requires c != nil && c.Conn != nil && c.Reader != nil && !c.proxy
 //@   taints[C18] c.secret 4
 //@   requires[C05] ghost.sync == 1
-//@   modifies ghost.inPos, ghost.nwrites, ghost.written, ghost.md5acc, ghost.gauge, ghost.armed, ghost.dead, ghost.reads, ghost.handled, ghost.replies, ghost.closed, ghost.sync, ghost.hcalls, ghost.authorStatus, ghost.authenPass, ghost.acctStatus, ghost.sinkWrites, ghost.sinkAtReply, ghost.scopeArg, ghost.cmpOK, ghost.cmpCalls, ghost.lookups, ghost.lookedUp, ghost.rdFailed, ghost.gotH
+//@   modifies ghost.inPos, ghost.nwrites, ghost.written, ghost.md5acc, ghost.gauge, ghost.armed, ghost.dead, ghost.reads, ghost.handled, ghost.replies, ghost.closed, ghost.sync, ghost.hcalls, ghost.authorStatus, ghost.authenPass, ghost.acctStatus, ghost.sinkWrites, ghost.sinkAtReply, ghost.scopeArg, ghost.cmpOK, ghost.cmpCalls, ghost.lookups, ghost.lookedUp, ghost.lastJSON, ghost.rdFailed, ghost.gotH
 //@   ensures[C07,C17] ghost.closed == old(ghost.closed) + 1
 //@   ensures[C07] ghost.handled - old(ghost.handled) <= ghost.reads - old(ghost.reads)
 //@   ensures[C07] ghost.replies - old(ghost.replies) == ghost.handled - old(ghost.handled)
@@ -728,7 +732,7 @@ package tacquito
 //@   ensures[C18] true
 //@   requires s != nil && s.loggerProvider != nil && s.SecretProvider != nil && ctx != nil && conn != nil && !s.proxy
 //@   requires[C05] ghost.sync == 1
-//@   modifies s.waitGroup.active, ghost.inPos, ghost.nwrites, ghost.written, ghost.md5acc, ghost.gauge, ghost.armed, ghost.dead, ghost.reads, ghost.handled, ghost.replies, ghost.closed, ghost.wgDones, ghost.sync, ghost.hcalls, ghost.authorStatus, ghost.authenPass, ghost.acctStatus, ghost.sinkWrites, ghost.sinkAtReply, ghost.scopeArg, ghost.cmpOK, ghost.cmpCalls, ghost.lookups, ghost.lookedUp, ghost.rdFailed, ghost.gotH, ghost.admitted, ghost.pgets, ghost.admits
+//@   modifies s.waitGroup.active, ghost.inPos, ghost.nwrites, ghost.written, ghost.md5acc, ghost.gauge, ghost.armed, ghost.dead, ghost.reads, ghost.handled, ghost.replies, ghost.closed, ghost.wgDones, ghost.sync, ghost.hcalls, ghost.authorStatus, ghost.authenPass, ghost.acctStatus, ghost.sinkWrites, ghost.sinkAtReply, ghost.scopeArg, ghost.cmpOK, ghost.cmpCalls, ghost.lookups, ghost.lookedUp, ghost.lastJSON, ghost.rdFailed, ghost.gotH, ghost.admitted, ghost.pgets, ghost.admits
 //@   ensures[C17,C20] ghost.wgDones == old(ghost.wgDones) + 1
 //@   ensures[C07,C13,C17] ghost.closed == old(ghost.closed) + 1
 //@   ensures[C20] ghost.gauge == upd(old(ghost.gauge), waitgroupActive, old(ghost.gauge)[waitgroupActive] - 1)
